@@ -88,7 +88,11 @@ def class_source(case):
             # the declared default is int-valued, the annotation says float
             d = t["default"]
             lit = repr([int(x) if float(x).is_integer() and abs(x) < 1e15 else x for x in d]) if isinstance(d, list) else repr(int(d) if float(d).is_integer() and abs(d) < 1e15 else d)
-            if k == "h_float":
+            if k == "h_float" and lvl == 1 and t.get("style", 0) == 2:
+                # the annotation sits on the base (interface) class, the assignment in the derived class
+                body[0].append(f"    {t['a']}: float")
+                body[1].append(f"    {t['a']} = tunable({lit}{kw})")
+            elif k == "h_float":
                 body[lvl].append(f"    {t['a']}: float = tunable({lit}{kw})")
             elif t.get("style", 0) == 0:
                 body[lvl].append(f"    {t['a']} = tunable[Sequence[float]]({lit}{kw})")
